@@ -132,6 +132,8 @@ var fileLines = map[string]string{
 	"nokey":    ": b",
 	"icomment": "\t# a: x",
 	"colonval": "d: g:h",
+	"crlf":     "d: i\r",
+	"emptyval": "d: j,,k",
 }
 
 // runRow answers one row; a panic of the table code is an answer too ("no crash" is part of the statement).
@@ -207,9 +209,13 @@ func runRow(t *testing.T, tmp string, in map[string]interface{}) (out map[string
 		tbl, err = build(d)
 	case "file":
 		var sb strings.Builder
-		for _, l := range in["lines"].([]interface{}) {
+		lines := in["lines"].([]interface{})
+		nonl, _ := in["nonl"].(bool)
+		for i, l := range lines {
 			sb.WriteString(fileLines[l.(string)])
-			sb.WriteString("\n")
+			if !(nonl && i == len(lines)-1) {
+				sb.WriteString("\n")
+			}
 		}
 		p := filepath.Join(tmp, "rows-file")
 		if werr := os.WriteFile(p, []byte(sb.String()), 0o644); werr != nil {
